@@ -22,13 +22,18 @@ SameSection(sec, exp, got) ==
   /\ exp.present => /\ (sec.listen.k # "absent" \/ sec.iface # "") => got.addrs = exp.addrs   \* the listed addresses, in order, defaults filled in
                     /\ got.plugins = exp.plugins      \* exactly the listed plugins, in order, with their arguments
 
+\* a port number that no UDP port can be (> 65535): the statement leaves open whether that is "unparseable"; what it
+\* does not leave open is that an accepted one is the number that was written (never another port)
+BigPort(sec) == sec.present /\ sec.listen.k # "absent" /\ \E i \in 1..Len(sec.listen.specs) : sec.listen.specs[i].port > 65535
+
 TraceLoad ==
   /\ IsEvent("load")
   /\ LET e == Trace[l]  exp == Load(e.doc, e.ifs) IN
      ("C18" \in Lens) =>
         /\ ~e.res.panic                               \* no configuration makes loading panic
-        /\ e.res.err = exp.err                        \* rejected with an error exactly when the statement says so
-        /\ ~exp.err => SameSection(e.doc.s4, exp.s4, e.res.s4) /\ SameSection(e.doc.s6, exp.s6, e.res.s6)
+        /\ \/ e.res.err = exp.err                     \* rejected with an error exactly when the statement says so
+           \/ (e.res.err /\ (BigPort(e.doc.s4) \/ BigPort(e.doc.s6)))
+        /\ (~exp.err /\ ~e.res.err) => SameSection(e.doc.s4, exp.s4, e.res.s4) /\ SameSection(e.doc.s6, exp.s6, e.res.s6)
 
 TraceFuzz ==
   /\ IsEvent("fuzz")
